@@ -22,6 +22,7 @@ RULE = ("grammar-generated task programs (profiles %s; trees and DAGs of tasks, 
 LEAN_MODULES = LEAN_MODULES + ctxhist.LEAN_MODULES
 THEOREMS = THEOREMS + ["AsynqModel.Contexts." + n for n in ctxhist.THEOREMS]
 RULE += "; plus " + ctxhist.RULE
+RULE += "; plus families composite (contexts whose pause()/resume() leave / enter member contexts of the same task), hookenter (hooks that run asynq code) and afterthrow (contexts entered after a caught dependency error), judged by direct expectation (Drv/Families6c.lean)"
 TRUSTED = cc.TRUSTED_CORE + ctxhist.TRUSTED
 ASSUMPTIONS = cc.ASSUMPTIONS_CORE + ctxhist.ASSUMPTIONS
 
@@ -30,7 +31,8 @@ def extra(tier, rng):
     import coregen
     return [{"special": "overlap", "extra": e} for e in (False, True)] + cc.ctxraise_cases(two_hooks=False) + [coregen.override_family(rng) for _ in range(150 if tier == "quick" else 3000)] + \
         ctxhist.cases(tier, rng) + cc.corefam4.callctx_cases(tier, cc.fork(rng, "callctx")) + \
-        cc.guard_ctx_cases(tier, cc.fork(rng, "guard"))
+        cc.guard_ctx_cases(tier, cc.fork(rng, "guard")) + cc.corefam6c.composite_cases(tier, cc.fork(rng, "composite")) + \
+        cc.corefam6c.hookenter_cases(tier, cc.fork(rng, "hookenter")) + cc.corefam6c.afterthrow_cases(tier, cc.fork(rng, "afterthrow"))
 
 
 def plan(tier, seed):
